@@ -570,6 +570,50 @@ def iter_all_any(m, st, inst, args, t):
     is_all = inst["npath"].endswith("::all")
     if s[2][0] == "int" and s[2][1] == 0:
         return TRUE if is_all else FALSE
+    j = lookahead_prefix(m, st, s)
+    if j is not None:
+        # the measured look-ahead [cursor, token+j): its cells and the pending run
+        tok, idx, back = st.ahead
+        if st.run is not None and -j > back:
+            m.unfold_run(st, from_back=True)
+        if idx + back + j < 0:
+            raise Unanalysable("all/any over a slice that starts at the cursor and ends before it")
+        cells = st.tape[:idx + back + j]
+        content = st.run or 0
+        for c_ in cells:
+            content |= st.cells[c_]
+        good = P if is_all else (FULL & ~P)  # the class every byte has when all()=true / any()=false
+        if (content & ~good & FULL) == 0:
+            return TRUE if is_all else FALSE
+        bad = FULL & ~good
+        cands = [k_ for k_, c_ in enumerate(cells) if st.cells[c_] & bad]
+        in_run = st.run is not None and (st.run & bad) != 0
+        labels = ["uniform"] + ["exception@%d" % k_ for k_ in cands] + (["exception-in-run"] if in_run else [])
+        i = m.choose(st, "lookahead-pred@%s" % m.where(st), labels)
+        if i == 0:
+            for c_ in cells:
+                if not st.refine(c_, good):
+                    raise Violation("infeasible")
+            if st.run is not None:
+                st.run &= good
+            return TRUE if is_all else FALSE
+        if i <= len(cands):
+            # the first exception is this cell: the ones before it are uniform
+            k_ = cands[i - 1]
+            for c_ in cells[:k_]:
+                if not st.refine(c_, good):
+                    raise Violation("infeasible")
+            if not st.refine(cells[k_], bad):
+                raise Violation("infeasible")
+            if k_ >= idx and st.run is not None:
+                st.run &= good  # the run lies in front of this cell
+        else:
+            # some byte of the pending run is an exception (the cells in front of the run are not)
+            for c_ in cells[:idx]:
+                if not st.refine(c_, good):
+                    raise Violation("infeasible")
+            st.flags["run_has"] = st.run & bad
+        return FALSE if is_all else TRUE
     c = summ_content(s[3])
     if c is None:
         raise Unanalysable("all/any over an unsummarised region")
@@ -665,6 +709,21 @@ def iter_rposition(m, st, inst, args, t):
     return some(("sym", ((name, 1),), 0, pb, False))
 
 
+def lookahead_prefix(m, st, s):
+    """j <= 0 when s is the measured look-ahead without its last -j bytes, [cursor, token+j); else None."""
+    if st.ahead is None or s[0] != "fat" or s[1][0] != "B":
+        return None
+    r = st.rel_pos(s[1][1], s[1][2])
+    if r is None or r[2] != 1 or r[0] != 0 or r[1] != 0:
+        return None
+    pb = m.p.ptr_bytes * 8
+    end = sym_add(m.addr_of(s[1], pb), s[2])
+    if end[0] != "sym":
+        return None
+    j = m.ahead_rel(st, ("B", end[1], end[2]))
+    return j if j is not None and j <= 0 else None
+
+
 # ---- measured look-ahead: count / position over the remaining input -----------------------------
 def scan_run(m, st, s, K, what):
     """`s` must be exactly the remaining input.  Decides how many leading bytes lie in class K:
@@ -710,7 +769,7 @@ def scan_run(m, st, s, K, what):
             return False
         c = s_.new_cell(mask)
         s_.tape.append(c)
-        s_.ahead = (name, n)
+        s_.ahead = (name, n, 0)
         s_.run = K & ~s_.flags.get("tape_excl", 0)
         s_.flags["$run_scan"] = "stop"
         if m.hooks is not None:
@@ -718,7 +777,7 @@ def scan_run(m, st, s, K, what):
 
     def with_eof(s_):
         s_.eof = True
-        s_.ahead = (name, n)
+        s_.ahead = (name, n, 0)
         s_.run = K & ~s_.flags.get("tape_excl", 0)
         s_.flags["$run_scan"] = "eof"
         if m.hooks is not None:
